@@ -535,6 +535,10 @@ Fixpoint split_path (s cur : bytes) : list bytes :=
     else split_path r (cur ++ [c])
   end.
 
+(* harness encoding of a flat directory of plain files: names joined by '/' *)
+Definition flat_tree (enc : bytes) : tree :=
+  Dir (map (fun n => (n, File)) (split_path enc [])).
+
 Definition ends_with_slash (s : bytes) : bool :=
   match rev s with c :: _ => N.eqb c SL | [] => false end.
 Definition is_abs (s : bytes) : bool :=
